@@ -131,6 +131,7 @@ impl Tape {
         self.draws[0] += 1;
         self.subs[0].pos += 1;
         self.subs[0].rec.push(Rec { label, bound, value });
+        trace(0, label, bound, value);
         value
     }
 
@@ -165,6 +166,7 @@ impl Tape {
         };
         sub.pos += 1;
         sub.rec.push(Rec { label, bound, value });
+        trace(idx, label, bound, value);
         value
     }
 
@@ -176,6 +178,23 @@ impl Tape {
 
 thread_local! {
     static TAPE: RefCell<Option<Tape>> = const { RefCell::new(None) };
+    /// when set, every draw is appended to this file at once (unbuffered): lets the supervisor
+    /// recover the decisions of a run that kills its own process
+    static TRACE: RefCell<Option<std::fs::File>> = const { RefCell::new(None) };
+}
+
+pub fn trace_to(path: &str) {
+    let f = std::fs::OpenOptions::new().create(true).write(true).truncate(true).open(path).ok();
+    TRACE.with(|t| *t.borrow_mut() = f);
+}
+
+fn trace(stream: usize, label: &str, bound: u64, value: u64) {
+    TRACE.with(|t| {
+        if let Some(f) = t.borrow_mut().as_mut() {
+            use std::io::Write;
+            let _ = f.write_all(format!("{stream}\t{label}\t{bound}\t{value}\n").as_bytes());
+        }
+    });
 }
 
 pub fn install(t: Tape) {
